@@ -278,7 +278,7 @@ def generate(tier, seed):
                 for op in OPS_TP2:
                     emit(op, "i64", k1, "i64", k2, ring + big[::3], 5)
                 for op in OPS_TPD:            # different periods: the result is in the common period
-                    for b in bs_fixed + [rnd.randint(-2000, 2000), rnd.choice(big)]:
+                    for b in (bs_fixed if thorough else [-7, 3]) + [rnd.randint(-2000, 2000), rnd.choice(big)]:
                         emit(op, "i64", k1, "i64", k2, (small if (thorough and b == 3) else ring) + big[::3], b)
                     emit(op, "i64", k1, "i64", k2, big, rnd.choice(big))
 
@@ -310,7 +310,7 @@ def generate(tier, seed):
             for rs in ("i32", "i64"):
                 s_big = i32big if rs == "i32" else big
                 for op in OPS_SCALAR:
-                    for b in [-7, -1, 1, 2, 3, 1000, rnd.randint(-2000, 2000), rnd.choice(s_big), rnd.choice(s_big)]:
+                    for b in ([-7, -1, 1, 2, 3, 1000] if thorough else [-7, -1, 3]) + [rnd.randint(-2000, 2000), rnd.choice(s_big), rnd.choice(s_big)]:
                         emit(op, r1, k1, None, None, ((small if thorough else ring) if b in (-7, 3) else ring) + a_big, b, rs=rs)
             add("limits r1=%s p1=%d a=0" % (r1, k1), "limits/" + r1)
 
@@ -374,7 +374,7 @@ def _build_parts(src, out_name, extra_flags=(), repo=None, std_flags=None):
     h = hashlib.sha256()
     for f in (srcp, os.path.join(lib.VERIF, "harness", "proto.hpp")):
         h.update(open(f, "rb").read())
-    h.update(" ".join(flags).encode())
+    h.update((" ".join(flags) + " NPARTS=%d" % NPARTS).encode())
     h.update(lib.sh([lib.CXX, "--version"])[1].encode())
     key = h.hexdigest()[:12]
     tag = "%s_%d" % (out_name, os.getpid())
